@@ -94,21 +94,28 @@ Theorem C33_zip_ids : forall dest src, is_node dest = true ->
 Proof. exact zip_ids. Qed.
 Print Assumptions C33_zip_ids.
 
-(* ... and all page attributes interleave too provided no CropBox is inherited in either document *)
+(* ... and (extra fact) all page attributes interleave too, whatever the source document inherits
+   (weaveInPage / AppendPages pin Rotate, MediaBox, CropBox and Resources), provided no /Pages node of the
+   DESTINATION carries a CropBox *)
 Theorem C33_zip_pages_partial : forall dest src t, zip_merge dest src = Ok t ->
-  no_node_crop dest = true -> no_node_crop src = true ->
+  no_node_crop dest = true ->
   Forall (fun v => v_media v <> None) (pages_of src) ->
   pages_of t = interleave (pages_of dest) (pages_of src).
 Proof. exact zip_pages. Qed.
 Print Assumptions C33_zip_pages_partial.
 
-(* without that condition it is false: weaveInPage makes Rotate and MediaBox explicit but not CropBox, so
-   a woven-in page loses its inherited CropBox and picks up the one inherited at its new position *)
+(* the document on which zip merge used to lose the inherited CropBox is now woven in unchanged *)
+Theorem C33_zip_former_witness :
+  exists t, zip_merge doc_plain doc_inh_crop = Ok t /\
+    pages_of t = interleave (pages_of doc_plain) (pages_of doc_inh_crop).
+Proof. exact zip_witness_fixed. Qed.
+Print Assumptions C33_zip_former_witness.
+
+(* the remaining condition is needed: a source page without any CropBox, woven in below a destination
+   /Pages node that has one, shows that CropBox afterwards *)
 Theorem C33_zip_pages_refuted :
-  (exists t, zip_merge doc_plain doc_inh_crop = Ok t /\
-     pages_of t <> interleave (pages_of doc_plain) (pages_of doc_inh_crop)) /\
-  (exists t, zip_merge doc_inh_crop doc_plain = Ok t /\
-     pages_of t <> interleave (pages_of doc_inh_crop) (pages_of doc_plain)).
+  exists t, zip_merge doc_inh_crop doc_plain = Ok t /\
+    pages_of t <> interleave (pages_of doc_inh_crop) (pages_of doc_plain).
 Proof. exact zip_refuted. Qed.
 Print Assumptions C33_zip_pages_refuted.
 
